@@ -103,6 +103,11 @@ def block(stmts):
             return '(.setFailed %s %s)' % ('true' if s.value.value else 'false', k())
         if s.targets[0].id != FLAG[0] and pure(s.value):
             return k()
+    if isinstance(s, ast.If) and not s.orelse and len(s.body) == 1 and isinstance(s.body[0], ast.Assign) \
+            and len(s.body[0].targets) == 1 and isinstance(s.body[0].targets[0], ast.Name) and s.body[0].targets[0].id != FLAG[0] \
+            and pure(s.body[0].value) and pure(s.test) and ast.unparse(s.test) in (
+                '%s is None' % s.body[0].targets[0].id, 'not isinstance(%s, str)' % s.body[0].targets[0].id):
+        return k()                                                      # defaulting / casting of a pure local (`if reason is None: reason = ...`)
     if isinstance(s, ast.If):
         t = s.test
         c = caught_test(t)
